@@ -49,6 +49,17 @@ impl Builder {
     where
         R: 'static + io::BufRead,
     {
+        // Detection below peeks at the buffered start of the stream, but a single `fill_buf` may
+        // return arbitrarily few bytes (e.g. from a pipe), so read ahead enough for a whole BGZF
+        // block and chain it back in front of the remaining stream
+        const MAX_BGZF_BLOCK_SIZE: u64 = 1 << 16;
+        let mut start = Vec::new();
+        reader
+            .by_ref()
+            .take(MAX_BGZF_BLOCK_SIZE)
+            .read_to_end(&mut start)?;
+        let mut reader = io::Cursor::new(start).chain(reader);
+
         let compression_method = match self.compression_method {
             Some(compression_method) => compression_method,
             None => CompressionMethod::detect(&mut reader)?,
